@@ -276,7 +276,7 @@ fn run_concrete(code: &[u8], m: &Model) -> Result<Vec<CState>, String> {
 // evaluator of symbolic values
 // ------------------------------------------------------------------------------------------------
 /// None: the tree contains something that is not a function of constants (a culled `Value`, an environment read ...)
-fn ev(v: &Arc<RSV>) -> Option<U256> {
+pub(crate) fn ev(v: &Arc<RSV>) -> Option<U256> {
     Some(match v.data() {
         RSVD::KnownData { value } => value.value_le(),
         RSVD::Add { left, right } => ev(left)?.wrapping_add(ev(right)?),
@@ -309,7 +309,7 @@ fn ev(v: &Arc<RSV>) -> Option<U256> {
 }
 /// (value of the raw tree, value of the constant-folded tree)
 fn ev2(v: &Arc<RSV>) -> (Option<U256>, Option<U256>) { (ev(v), ev(&v.constant_fold())) }
-fn known(x: U256) -> Arc<RSV> { RSV::new_known_value(0, KnownWord::from_le(x), Provenance::Synthetic, None) }
+pub(crate) fn known(x: U256) -> Arc<RSV> { RSV::new_known_value(0, KnownWord::from_le(x), Provenance::Synthetic, None) }
 
 type E2 = (Option<U256>, Option<U256>);
 struct SymOut {
@@ -947,4 +947,28 @@ fn c07_diff_stack_effect_of_every_opcode() {
         }
     }
     println!("CASES c07_diff_stack_effect {cases}");
+}
+
+/// CODESIZE is the length of the code being executed, whatever that length is (below, at and above the 24576-byte limit of
+/// deployed code: init code may be twice that)
+#[test]
+fn c07_diff_codesize_is_the_code_length() {
+    let mut cases = 0;
+    for len in [3usize, 100, 24575, 24576, 24577, 30000, 49152] {
+        // CODESIZE ; JUMPDEST * (len - 1)
+        let mut code = vec![0x38u8];
+        code.extend(std::iter::repeat(0x5b).take(len - 1));
+        let none = BTreeSet::new();
+        cases += 1;
+        match run_symbolic(&code, &none, &none) {
+            Ok(outs) => {
+                let top = outs.first().and_then(|o| o.stack.first().copied());
+                if outs.len() != 1 || top != Some((Some(w(len as u128)), Some(w(len as u128)))) {
+                    witness("C07", "opcode.codesize_is_the_code_length", format!("CODESIZE followed by {} JUMPDESTs", len - 1), format!("{} states, top of stack {top:?}", outs.len()), format!("{len}"));
+                }
+            }
+            Err(e) => witness("C07", "opcode.codesize_is_the_code_length", format!("CODESIZE followed by {} JUMPDESTs", len - 1), format!("error {e}"), format!("{len}")),
+        }
+    }
+    println!("CASES c07_diff_codesize {cases}");
 }
